@@ -36,7 +36,8 @@ def sheet(wb, name):
     return None
 
 
-def to_dict(wb) -> dict:
+def to_dict(wb, raw=False) -> dict:
+    """raw=True: typed cells (int / float / bool) are handed over as they are, as a JSON-borne dict would carry them"""
     d = {"sheet_names": [s["name"] for s in wb["sheets"]]}
     if wb.get("fallback_form_name") is not None:
         d["fallback_form_name"] = wb["fallback_form_name"]
@@ -49,7 +50,7 @@ def to_dict(wb) -> dict:
         for r in s["rows"]:
             row = {}
             for h, c in zip(s["header"], r):
-                cc = canon_cell(c)
+                cc = c if (raw and isinstance(c, (int, float)) and not isinstance(c, bool)) else canon_cell(c)
                 if h is not None and cc is not None:
                     row[h] = cc
             rows.append(row)
@@ -164,6 +165,8 @@ def render(wb, fmt: str):
     """Return a convert()-ready `input` descriptor for conv.convert_case (in-memory channels)."""
     if fmt == "dict":
         return {"kind": "dict", "data": to_dict(wb)}, {}
+    if fmt == "dict_raw":
+        return {"kind": "dict", "data": to_dict(wb, raw=True)}, {}
     if fmt == "md":
         return {"kind": "md", "data": to_md(wb)}, {}
     if fmt == "csv":
